@@ -65,19 +65,25 @@ def role_step(rng, role, rep, fb="mixed"):
 
 def script(rng, kinds, roles, rep):
     members = [{"k": k, "o": {"ivl": 1, "size": 64, "k": 2, "n": 1, "rate": 50_000_000}} for k in kinds]
-    twcc = 7 if ("twcchdr" in kinds or not ({"cc", "ccleaky"} & set(kinds))) else 0
+    twcc = 7 if ("twcchdr" in kinds or not ({"cc", "ccleaky", "ccslow"} & set(kinds))) else 0
     fb = rng.choice(["ccfb", "twccfb", "ccfb", "twccfb", "mixed"])     # both RTCP read loops deliver the same kind of feedback in 2 of 3 scripts
     steps = [{"a": "bindw"}, {"a": "bindr"},
              {"a": "bindl", "s": 1, "nack": True, "twcc": twcc, "rtx": rng.random() < 0.5, "fec": True},
              {"a": "bindl", "s": 3, "nack": True, "twcc": twcc, "rtx": False, "fec": False},
              {"a": "bindm", "s": 2, "nack": True, "twcc": 7, "pli": False},
              {"a": "bindm", "s": 4, "nack": False, "twcc": 7, "pli": False},
-             {"a": "wait", "ms": 5},      # (the statistics recorders are started by a goroutine per stream)
+             {"a": "statssync", "nums": [1, 2, 3, 4]},   # (the statistics recorders are started by a goroutine per stream)
              # a prior history, so that feedback about packets 1000.. (transport-wide numbers 0..) names sent packets
              {"a": "par", "par": [{"a": "wrtp", "s": 1, "w": 1000, "id": 1, "len": 20, "shape": 0, "fail": False, "rep": 40}]},
              {"a": "par", "par": [role_step(rng, r, rep, fb) for r in roles]},
              {"a": "wait", "ms": 3}]
     if "stats" in kinds and "close" not in roles:
+        steps += [{"a": "par", "par": [{"a": "bindl", "s": 7, "nack": False, "twcc": 0, "rtx": False, "fec": False},
+                                       {"a": "bindm", "s": 7, "nack": False, "twcc": 0, "pli": False}]},
+                  {"a": "statssync", "nums": [7]},
+                  {"a": "par", "par": [{"a": "wrtp", "s": 7, "w": 1, "id": 1, "len": 10, "shape": 0, "fail": False, "rep": 20},
+                                       {"a": "rrtp", "s": 7, "w": 1, "id": 1, "len": 10, "shape": 0, "tw": -1, "fail": False, "rep": 20}]},
+                  {"a": "stats", "s": 7}]
         steps += [{"a": "stats", "s": 1}, {"a": "stats", "s": 2}, {"a": "stats", "s": 3}, {"a": "stats", "s": 4}]
     if "close" not in roles:
         steps.append({"a": "close"})
